@@ -363,15 +363,15 @@ func c08Exhausted(c *Ctx) {
 func init() {
 	p := registry["C11"]
 	orig, origCan := p.Run, p.Canaries
-	p.Run = func(c *Ctx) { orig(c); c11CursorFresh(c) }
+	p.Run = func(c *Ctx) { orig(c); c11CursorFresh(c, "C11.cursor-fresh") }
 	p.Canaries = func(c *Ctx) []Canary {
 		return append(origCan(c), Canary{Name: "tail-word-index-stale", File: "bits.go", Old: "\tif remaining > 0 {\n\t\tword = pos >> 6\n", New: "\tif remaining > 0 {\n", Rule: "C11.cursor-fresh"},
 			Canary{Name: "loop-word-index-from-start", File: "bits.go", Old: "\tfor remaining >= 64 {\n\t\tword = pos >> 6\n", New: "\tfor remaining >= 64 {\n\t\tword = startPos >> 6\n", Rule: "C11.cursor-fresh"})
 	}
 }
 
-func c11CursorFresh(c *Ctx) {
-	c.Rule("C11.cursor-fresh", "K11/dominance: in clearRange every index into the bitmap is `p >> 6` for a cursor value p such that no later cursor value derived from p (p advanced and masked) is already defined on every path to the access", 3)
+func c11CursorFresh(c *Ctx, rule string) {
+	c.Rule(rule, "K11/dominance: in clearRange every index into the bitmap is `p >> 6` for a cursor value p such that no later cursor value derived from p (p advanced and masked) is already defined on every path to the access", 3)
 	fn := c.Func(Ref{"", "Bits", "clearRange"})
 	fBits, fMask := c.Field("", "Bits", "bits"), c.Field("", "Bits", "lengthMask")
 	if fn == nil || fBits == nil || fMask == nil || len(fn.Params) < 2 {
@@ -519,7 +519,7 @@ func c11CursorFresh(c *Ctx) {
 				n--
 				return // not indexed by the cursor at all (the whole-bitmap sweep of the full-window case)
 			}
-			c.Unknown("C11.cursor-fresh", cons, "the bitmap index derives from the cursor but is not `cursor >> 6`: unrecognised shape")
+			c.Unknown(rule, cons, "the bitmap index derives from the cursor but is not `cursor >> 6`: unrecognised shape")
 			return
 		}
 		for _, p := range bases {
@@ -528,12 +528,12 @@ func c11CursorFresh(c *Ctx) {
 					continue
 				}
 				if advancedFrom(q, p, false, map[ssa.Value]bool{}) {
-					c.Bad("C11.cursor-fresh", cons, c.instrPos(in), fmt.Sprintf("the bitmap word is indexed by an earlier cursor position (%s) although the cursor has already been advanced (%s) on every path to this access: the mask is applied to the wrong word", exprString(p), exprString(q)))
+					c.Bad(rule, cons, c.instrPos(in), fmt.Sprintf("the bitmap word is indexed by an earlier cursor position (%s) although the cursor has already been advanced (%s) on every path to this access: the mask is applied to the wrong word", exprString(p), exprString(q)))
 					return
 				}
 			}
 		}
-		c.OK("C11.cursor-fresh", cons, "indexed by the current cursor")
+		c.OK(rule, cons, "indexed by the current cursor")
 	})
 }
 
@@ -1167,5 +1167,154 @@ func c09NoAlias(c *Ctx) {
 			}
 			c.Check(fresh(st.Val, 0), "C09.no-alias", fmt.Sprintf("%s:RemoteList.vpnAddrs#%d", fnName(fn), n), c.instrPos(in), "freshly allocated", "RemoteList.vpnAddrs is set to a slice that shares storage with another holder (a parameter, another field or its own old backing array): a later refresh rewrites the address list of an installed tunnel in place, so its recorded addresses stop being the verified certificate's")
 		})
+	}
+}
+
+// ---------------------------------------------------------------------------------------
+// C12: at-most-once delivery rests on the replay window sliding correctly: the C11 stale-word-index rule is also a necessary
+// condition of C12. (Seed C12b: the same clearRange slip as seed C11, demonstrated through ConnectionState.Decrypt.)
+func init() {
+	p := registry["C12"]
+	orig, origCan := p.Run, p.Canaries
+	p.Run = func(c *Ctx) { orig(c); c11CursorFresh(c, "C12.window-cursor") }
+	p.Canaries = func(c *Ctx) []Canary {
+		return append(origCan(c), Canary{Name: "window-tail-word-index-stale", File: "bits.go", Old: "\tif remaining > 0 {\n\t\tword = pos >> 6\n", New: "\tif remaining > 0 {\n", Rule: "C12.window-cursor"})
+	}
+}
+
+// ---------------------------------------------------------------------------------------
+// C28: deleting a tunnel reports "no tunnel to the peer remains" only if that is so: in the per-address loop of
+// unlockedDeleteHostInfo every iteration that leaves a tunnel for the address (the list is still non-empty after the removal, or
+// Hosts[addr] holds a different tunnel) must turn the verdict to false. (Seed C28b: the "held by a different tunnel" arm was
+// dropped while tidying nested ifs; a late delete of an already removed tunnel then cleared lighthouse and relay state of a
+// peer that still had a live tunnel.)
+func init() {
+	p := registry["C28"]
+	orig, origCan := p.Run, p.Canaries
+	p.Run = func(c *Ctx) { orig(c); c28FinalVerdict(c) }
+	p.Canaries = func(c *Ctx) []Canary {
+		return append(origCan(c),
+			Canary{Name: "final-ignores-other-holder", File: "hostmap.go", Old: "\t\t\t} else {\n\t\t\t\t// We don't hold this address but another hostinfo does, we still have a tunnel to the peer\n\t\t\t\tfinal = false\n\t\t\t}\n", New: "\t\t\t}\n", Rule: "C28.final"},
+			Canary{Name: "final-ignores-remaining-list", File: "hostmap.go", Old: "\t\t\tif len(list) > 0 {\n\t\t\t\tfinal = false\n\t\t\t}\n", New: "", Rule: "C28.final"})
+	}
+}
+
+func c28FinalVerdict(c *Ctx) {
+	c.Rule("C28.final", "K1 on the loop-carried verdict of unlockedDeleteHostInfo: an iteration that leaves a tunnel for the address (remaining list non-empty; Hosts[addr] is another tunnel) reaches the next iteration only with the verdict set to false, and the function returns that verdict", 2)
+	fn := c.Func(Ref{"", "HostMap", "unlockedDeleteHostInfo"})
+	fHosts := c.Field("", "HostMap", "Hosts")
+	fVpn := c.Field("", "HostInfo", "vpnAddrs")
+	if fn == nil || fHosts == nil || fVpn == nil {
+		return
+	}
+	hi := fn.Params[1]
+	loops := findRangeLoops(fn, func(v ssa.Value) bool {
+		return loadsField(v, fVpn) && derivesFrom(v, sliceLocal, func(x ssa.Value) bool { return x == ssa.Value(hi) })
+	})
+	if len(loops) != 1 {
+		c.Unknown("C28.final", "unlockedDeleteHostInfo:loop", "per-address loop not found")
+		return
+	}
+	hdr := loops[0].Header
+	// the loop-carried verdict: a bool phi in the header that is `true` coming from outside the loop
+	var verdict *ssa.Phi
+	for _, in := range hdr.Instrs {
+		phi, ok := in.(*ssa.Phi)
+		if !ok {
+			break
+		}
+		if b, ok := phi.Type().Underlying().(*types.Basic); !ok || b.Kind() != types.Bool {
+			continue
+		}
+		for k, e := range phi.Edges {
+			if bv, isC := boolConst(e); isC && bv && !hdr.Dominates(hdr.Preds[k]) {
+				verdict = phi
+			}
+		}
+	}
+	if verdict == nil {
+		c.Unknown("C28.final", "unlockedDeleteHostInfo:verdict", "no loop-carried boolean verdict initialised to true was found")
+		return
+	}
+	// returned
+	retOK := false
+	for _, b := range fn.Blocks {
+		if r, ok := b.Instrs[len(b.Instrs)-1].(*ssa.Return); ok && len(r.Results) == 1 && derivesFrom(retResult(r, 0), sliceLocal, func(x ssa.Value) bool { return x == ssa.Value(verdict) }) {
+			retOK = true
+		}
+	}
+	c.Check(retOK, "C28.final", "unlockedDeleteHostInfo:returns-verdict", c.P.Pos(fn.Pos()), "the loop-carried verdict is what is returned", "the function does not return the per-address verdict")
+	isFalse := func(v ssa.Value) bool {
+		var all func(v ssa.Value, d int) bool
+		all = func(v ssa.Value, d int) bool {
+			if bv, ok := boolConst(v); ok {
+				return !bv
+			}
+			if phi, ok := v.(*ssa.Phi); ok && phi != verdict && d < 6 {
+				for _, e := range phi.Edges {
+					if !all(e, d+1) {
+						return false
+					}
+				}
+				return true
+			}
+			return false
+		}
+		return all(v, 0)
+	}
+	// the two "a tunnel remains" conditions
+	type cond struct {
+		name string
+		g    Guard
+	}
+	conds := []cond{
+		{"other-holder", gCmp("Hosts[addr] is another tunnel", func(v ssa.Value) bool {
+			return derivesFrom(v, sliceLocal, func(x ssa.Value) bool { lk, ok := x.(*ssa.Lookup); return ok && loadsField(lk.X, fHosts) })
+		}, func(v ssa.Value) bool { return v == ssa.Value(hi) }, mustDiffer)},
+		{"remaining-list", gCmp("list non-empty after the removal", isLenOf(func(v ssa.Value) bool {
+			return derivesFrom(v, sliceLocal, isCallTo(Ref{"", "", "removeHostInfo"}))
+		}), isIntConst(0), func(op token.Token) (bool, bool) {
+			switch op {
+			case token.GTR, token.NEQ:
+				return true, true
+			case token.LEQ, token.EQL:
+				return true, false
+			}
+			return false, false
+		})},
+	}
+	for _, cd := range conds {
+		edges, nTests := passEdges(fn, cd.g)
+		if nTests == 0 {
+			c.Bad("C28.final", "unlockedDeleteHostInfo:"+cd.name, c.P.Pos(fn.Pos()), "the case '"+cd.g.Name+"' is no longer distinguished in the per-address loop: the verdict cannot become false for it")
+			continue
+		}
+		bad := ""
+		blocked := map[Edge]bool{}
+		for i := range hdr.Succs {
+			blocked[Edge{hdr, i}] = true
+		}
+		for e := range edges {
+			s := e.From.Succs[e.Succ]
+			// every way from this edge back to the loop head must carry a false verdict
+			check := func(pred *ssa.BasicBlock) {
+				for k, p := range hdr.Preds {
+					if p == pred && !isFalse(verdict.Edges[k]) {
+						bad = c.blockLine(p)
+					}
+				}
+			}
+			if s == hdr {
+				check(e.From)
+				continue
+			}
+			reach := reachable(s, blocked)
+			for _, p := range hdr.Preds {
+				if _, r := reach[p]; r {
+					check(p)
+				}
+			}
+		}
+		c.Check(bad == "", "C28.final", "unlockedDeleteHostInfo:"+cd.name, c.P.Pos(fn.Pos()), "the verdict is false on every way back to the loop head", "an iteration in which "+cd.g.Name+" reaches the next iteration ("+bad+") with the verdict unchanged: the delete reports that no tunnel to the peer remains although one does")
 	}
 }
